@@ -23,6 +23,9 @@ func init() {
 		Technique: "assumption pruning over the validation guards, must-precede of removal events on success paths with nil-phi folding, loop-coverage rules for the drivers, arithmetic obligations, pointer-update ordering",
 		Trusted:   "go/types+go/ssa; go-datastore Delete/Batch contract; purity of header observers",
 		Run:       runC08,
+		Imports: []Import{
+			{From: "C14.b", Match: "removal-after-all-handlers", As: "C08.f", Why: "none of the deleted headers reappears: a cache purged before the OnDelete handlers ran (they may read the header) is filled again by such a read, and nothing purges it afterwards"},
+		},
 	})
 }
 
